@@ -290,6 +290,9 @@ fn observe(t: &Terminals, m: &Model, max_ti: usize) -> Option<String> {
 struct C32Case {
     max_ti: usize,
     ops: Vec<Op>,
+    /// a second history that must lead to the same value
+    #[serde(default)]
+    other: Option<Vec<Op>>,
 }
 
 fn replay_ops(case: &C32Case) -> Vec<Violation> {
@@ -306,6 +309,24 @@ fn replay_ops(case: &C32Case) -> Vec<Violation> {
         }
         if let Some(d) = observe(&t, &m, case.max_ti) {
             return vec![Violation { class: "packed_value_differs_from_sequence".into(), what: format!("max_terminal_index {} after {:?}: {d}", case.max_ti, &case.ops[..=i]), case: json!(case), detail: json!({}) }];
+        }
+    }
+    if let Some(other) = &case.other {
+        let mut t2 = Terminals::new(case.max_ti);
+        let mut m2 = Model { v: vec![] };
+        for op in other {
+            if let Ok(Ok((a, b))) = catch(|| apply(*op, t2, &m2, case.max_ti)) {
+                t2 = a;
+                m2 = b;
+            }
+        }
+        if m.v == m2.v && (t != t2 || hash_of(&t) != hash_of(&t2) || t.cmp(&t2) != std::cmp::Ordering::Equal) {
+            return vec![Violation {
+                class: "equal_sequences_reached_by_different_histories_are_unequal_values".into(),
+                what: format!("max_terminal_index {}: {:?} and {:?} both denote {:?} but == is {}, cmp is {:?}", case.max_ti, case.ops, other, m.v, t == t2, t.cmp(&t2)),
+                case: json!(case),
+                detail: json!({}),
+            }];
         }
     }
     vec![]
@@ -349,10 +370,14 @@ fn run_c32(tier: Tier, replay: Option<&str>) -> i32 {
             alphabet.push(Op::Of(k));
         }
         // BFS over operation sequences, dedup on the model sequence (the observable content)
-        let mut seen: HashSet<Vec<u16>> = HashSet::new();
+        // state = (denoted sequence, hash of the real value): a correct implementation has one real value
+        // per sequence, so the second component only adds states when residue bits differ
+        let mut seen: HashSet<(Vec<u16>, u64)> = HashSet::new();
+        let mut rep: std::collections::HashMap<Vec<u16>, (Terminals, Vec<Op>)> = std::collections::HashMap::new();
         let mut queue: VecDeque<Vec<Op>> = VecDeque::new();
         queue.push_back(vec![]);
-        seen.insert(vec![]);
+        seen.insert((vec![], hash_of(&Terminals::new(max_ti))));
+        rep.insert(vec![], (Terminals::new(max_ti), vec![]));
         let mut reals: Vec<(Terminals, Model)> = vec![];
         while let Some(ops) = queue.pop_front() {
             // rebuild
@@ -383,14 +408,30 @@ fn run_c32(tier: Tier, replay: Option<&str>) -> i32 {
                 acc.eval(1);
                 let mut nx = ops.clone();
                 nx.push(*op);
-                let case = C32Case { max_ti, ops: nx.clone() };
+                let case = C32Case { max_ti, ops: nx.clone(), other: None };
                 match catch(|| apply(*op, t, &m, max_ti)) {
                     Ok(Ok((t2, m2))) => {
                         if let Some(d) = observe(&t2, &m2, max_ti) {
                             acc.violation(Violation { class: "packed_value_differs_from_sequence".into(), what: format!("max_terminal_index {max_ti} after {nx:?}: {d}"), case: json!(case), detail: json!({}) });
                             continue;
                         }
-                        if seen.insert(m2.v.clone()) {
+                        // the same sequence reached by another history must be the same value
+                        match rep.get(&m2.v) {
+                            None => {
+                                rep.insert(m2.v.clone(), (t2, nx.clone()));
+                            }
+                            Some((r, rops)) => {
+                                if *r != t2 || hash_of(r) != hash_of(&t2) || r.cmp(&t2) != std::cmp::Ordering::Equal {
+                                    acc.violation(Violation {
+                                        class: "equal_sequences_reached_by_different_histories_are_unequal_values".into(),
+                                        what: format!("max_terminal_index {max_ti}: {nx:?} and {rops:?} both denote {:?} but == is {}, cmp is {:?}, hashes equal: {}", m2.v, *r == t2, r.cmp(&t2), hash_of(r) == hash_of(&t2)),
+                                        case: json!(C32Case { max_ti, ops: nx.clone(), other: Some(rops.clone()) }),
+                                        detail: json!({"other_history": format!("{rops:?}")}),
+                                    });
+                                }
+                            }
+                        }
+                        if seen.insert((m2.v.clone(), hash_of(&t2))) {
                             queue.push_back(nx);
                         }
                     }
